@@ -10,6 +10,7 @@
 -/
 import Proofs.DdsFixpoint
 import Proofs.DdsSamples
+import Proofs.DdsQuote
 namespace Pydap.C07
 open Pydap Pydap.Dds
 
@@ -79,6 +80,13 @@ theorem C07_print_parse_print_refuted :
     subst this
     exact seqArrayWitness_not_fixpoint (by rw [h2, hp])
 
+/-- The domain of the theorems above is reached from raw names: `_quote` (which `DapType.__init__` applies to
+    every name) maps every non-empty ASCII name without `/` that does not start with `dap4` to a name
+    satisfying `NameOk` — spaces, brackets, `&`, `.`, quotes … are percent-escaped into `name_regexp`'s alphabet. -/
+theorem C07_quoted_names (raw : Text) (hne : raw ≠ []) (h : ∀ c ∈ raw, c ≠ '/' ∧ c.toNat < 128)
+    (hd : raw.take 4 ≠ ['d', 'a', 'p', '4']) : NameOk (quoteName raw) :=
+  quoteName_nameOk raw hne h hd
+
 /-- Foreign style.  Any DDS written by the second, independent printer `ftextDs`
     (`PydapModel/DdsForeign.lean`: keywords and type names in any letter case, `Url`/`Int`/`UInt` or any
     other spelling the parser table knows, every dimension anonymous `[n]` or named `[d = n]`, arbitrary
@@ -97,6 +105,10 @@ example : WFds sample ∧ ColsL sample.kids 0 ∧ ∃ s, printDs sample = .ok s 
 
 example : ∃ b : BaseV, (b.dims = [] ∨ b.dims.length = b.shape.length) ∧ b.shape.length = 1 :=
   ⟨⟨['c'], ['i'], [4], []⟩, Or.inl rfl, rfl⟩
+
+example : ∃ raw : Text, raw ≠ [] ∧ (∀ c ∈ raw, c ≠ '/' ∧ c.toNat < 128) ∧ raw.take 4 ≠ ['d', 'a', 'p', '4']
+    ∧ quoteName raw ≠ raw :=
+  ⟨"a b[0].c&".toList, by decide, by decide, by decide, by decide⟩
 
 -- mixed-case keywords, Url/Int, anonymous and named dimensions, tabs/newlines/no whitespace: in the domain
 -- of `C07_foreign`
